@@ -103,13 +103,65 @@ Definition peek (n : N) (b : breader) : Res ((bytes + N) * breader) :=
     Ok (inr e, mkB (bcap b1) (br b1) (bw b1) (bwin b1) None (blast b1) (brd b1))
   else Ok (inl (firstn k (bwin b1)), b1).
 
+(* func (b *Reader) Read(p []byte) (n int, err error) with len(p) = k: result (bytes copied into p, err) *)
+Definition last_of (l : bytes) (d : option N) : option N :=
+  match rev l with c :: _ => Some c | [] => d end.
+Definition read (k : nat) (b : breader) : Res ((bytes * option N) * breader) :=
+  let clear (b : breader) := mkB (bcap b) (br b) (bw b) (bwin b) None (blast b) (brd b) in
+  (* copy as much as we can: n = copy(p, b.buf[b.r:b.w]); b.r += n; b.lastByte = int(b.buf[b.r-1]) *)
+  let copy_out (b : breader) :=
+    let out := firstn k (bwin b) in
+    Ok ((out, None), mkB (bcap b) (br b + length out) (bw b) (skipn k (bwin b)) (berr b) (last_of out (blast b)) (brd b)) in
+  if (k =? 0)%nat then
+    if (0 <? bw b - br b)%nat then Ok (([], None), b) else Ok (([], berr b), clear b)
+  else if (br b =? bw b)%nat then
+    match berr b with
+    | Some e => Ok (([], Some e), clear b)
+    | None =>
+      if (bcap b <=? k)%nat then
+        (* large read, empty buffer: read directly into p *)
+        let '((data, e), rd') := rd_read (brd b) k in
+        Ok ((data, e), mkB (bcap b) (br b) (bw b) (bwin b) None (last_of data (blast b)) rd')
+      else
+        (* one read into the buffer: b.r = 0; b.w = 0; n, b.err = b.rd.Read(b.buf) *)
+        let '((data, e), rd') := rd_read (brd b) (bcap b) in
+        match data with
+        | [] => Ok (([], e), mkB (bcap b) 0 0 [] None (blast b) rd')
+        | _ => copy_out (mkB (bcap b) 0 (length data) data e (blast b) rd')
+        end
+    end
+  else copy_out b.
+
+(* io.ReadFull(b, buf) with len(buf) = want, as in Model/PacketWriter.v read_at_least *)
+Fixpoint read_full_loop (fuel : nat) (want : nat) (b : breader) (acc : bytes) (err : option N)
+  : Res (bytes * option N * breader) :=
+  match fuel with
+  | O => Diverge
+  | S f =>
+    match err with
+    | None =>
+      if (length acc <? want)%nat then
+        let? (de, b') := read (want - length acc) b in
+        read_full_loop f want b' (acc ++ fst de) (snd de)
+      else Ok (acc, None, b)
+    | Some e =>
+      Ok (acc,
+          if (want <=? length acc)%nat then None
+          else if (0 <? length acc)%nat && (e =? E.EOF) then Some E.UnexpectedEOF else Some e,
+          b)
+    end
+  end.
+(* every Read delivers a byte, an error, or consumes an empty script element *)
+Definition read_full (want : nat) (b : breader) : Res (bytes * option N * breader) :=
+  read_full_loop (want + 2 + weight (brd b)) want b [] None.
+
 (* packet.Sync over bufio.NewReaderSize(scripted reader, size) *)
 Definition sync_loop : nat -> breader -> N -> Res (N * option N * breader) :=
   SyncIO.sync_loop_over breader read_byte unread_byte peek true.
 Definition sync_raw (size : nat) (s : script) : Res (N * option N * breader) :=
   sync_loop (S (script_len s)) (new_reader size (Script s)) 0.
 
-(* what r.Peek(k) hands out after Sync, error or not (the observation of op io.syncb) *)
+(* what r.Peek(k) hands out after Sync, error or not *)
 Definition peek_avail (k : nat) (b : breader) : Res bytes :=
   let? b1 := peek_loop (k + 2) k b in Ok (firstn k (bwin b1)).
 
